@@ -269,29 +269,39 @@ func checkC04(cs *c04Case, o *pt.Obs) error {
 	lo, hi := lq.TsBounds(evs)
 	ctx := model.NewCtx(evs)
 	kinds := model.ColKinds(evs)
-	// fields that have values in one segment and none in another
-	nullSegment := map[string]bool{}
-	segs := cs.Layout.Segments()
-	for name := range kinds {
-		with, without := 0, 0
-		for _, sg := range segs {
-			has := false
-			for _, e := range evs[sg[0]:sg[1]] {
-				f, _ := e.Flat()
-				if _, ok := f[name]; ok {
-					has = true
-					break
+	// fields that have values in one segment (or block) and none in another, among the events a query matches
+	ranges := append(cs.Layout.Segments(), cs.Layout.BlockRanges()...)
+	nullSegmentsOf := func(matched []*model.Event) map[string]bool {
+		in := map[*model.Event]bool{}
+		for _, e := range matched {
+			in[e] = true
+		}
+		out := map[string]bool{}
+		for name := range kinds {
+			with, without := 0, 0
+			for _, sg := range ranges {
+				has := false
+				for _, e := range evs[sg[0]:sg[1]] {
+					if !in[e] {
+						continue
+					}
+					f, _ := e.Flat()
+					if v, ok := f[name]; ok && v.K != model.KNull {
+						has = true
+						break
+					}
+				}
+				if has {
+					with++
+				} else {
+					without++
 				}
 			}
-			if has {
-				with++
-			} else {
-				without++
+			if with > 0 && without > 0 {
+				out[name] = true
 			}
 		}
-		if with > 0 && without > 0 {
-			nullSegment[name] = true
-		}
+		return out
 	}
 	return pt.WithWorker(sut.Options{}, func(c *sut.Client) error {
 		if err := lq.Ingest(c, "c04idx", 0, evs, cs.Layout); err != nil {
@@ -328,7 +338,7 @@ func checkC04(cs *c04Case, o *pt.Obs) error {
 				continue
 			}
 			groups := model.AggregateGroups(matched, q, ctx, kinds)
-			if err := checkStats(q, text, sr, groups, matched, kinds, nullSegment, o); err != nil {
+			if err := checkStats(q, text, sr, groups, matched, kinds, nullSegmentsOf(matched), o); err != nil {
 				return fmt.Errorf("query %d %q: %v", qi, text, err)
 			}
 			if len(groups) >= 2 && (flushes >= 2 || rots >= 1) {
